@@ -268,3 +268,71 @@ fn group_rebroadcast_withholds_the_fee() {
             paid_in - paid_out, atr_fee, rebroadcast_tx.to[1].amount, atr_payout_for_slip - atr_fee));
     }
 }
+
+/// C02 (second sentence): an accepted user transaction never pays out more than it consumes — for plain payments and
+/// for NFT-creating (Bound) transactions alike; surplus on the input side is fine
+#[tokio::test]
+#[serial_test::serial]
+async fn accepted_transaction_creates_no_value() {
+    use crate::core::consensus::wallet::Wallet;
+    let (pk, sk) = crate::core::util::crypto::generate_keys();
+    let wallet_lock = std::sync::Arc::new(tokio::sync::RwLock::new(Wallet::new(sk, pk)));
+    let mut blockchain = Blockchain::new(wallet_lock, 1_000, 0, 60);
+    let mut rng = Rng::from_env();
+    for round in 0..60 {
+        let nft = round % 2 == 1;
+        let input_amount = 1 + rng.below(1_000_000);
+        let out_amount = match rng.below(3) { 0 => input_amount, 1 => input_amount + 1 + rng.below(1_000_000_000), _ => rng.below(input_amount + 1) };
+        let mut tx = Transaction::default();
+        let mut input = Slip::default(); input.public_key = pk; input.amount = input_amount; input.block_id = 7; input.tx_ordinal = round; input.slip_index = 1;
+        tx.add_from_slip(input.clone());
+        if nft {
+            tx.transaction_type = TransactionType::Bound;
+            let mut o1 = Slip::default(); o1.public_key = pk; o1.amount = 1; o1.slip_type = SlipType::Bound;
+            let mut o2 = Slip::default(); o2.public_key = pk; o2.amount = out_amount;
+            let mut o3 = Slip::default(); o3.public_key = Wallet::create_nft_uuid(&input, "demo"); o3.amount = 0; o3.slip_type = SlipType::Bound;
+            tx.add_to_slip(o1); tx.add_to_slip(o2); tx.add_to_slip(o3);
+        } else {
+            let mut o = Slip::default(); o.public_key = pk; o.amount = out_amount; tx.add_to_slip(o);
+        }
+        tx.sign(&sk);
+        tx.generate(&pk, 0, 8);
+        blockchain.utxoset.insert(tx.from[0].utxoset_key, true);
+        let accepted = tx.validate(&blockchain.utxoset, &blockchain, true);
+        let consumed: u128 = tx.from.iter().filter(|s| s.slip_type != SlipType::Bound).map(|s| s.amount as u128).sum();
+        let paid: u128 = tx.to.iter().filter(|s| s.slip_type != SlipType::Bound).map(|s| s.amount as u128).sum();
+        if accepted && paid > consumed {
+            witness(format!("round {}: a {:?} transaction with inputs worth {} and value-carrying outputs worth {} was accepted by Transaction::validate — it pays out {} more than it consumes",
+                round, tx.transaction_type, consumed, paid, paid - consumed));
+        }
+        if !nft && !accepted && paid <= consumed { witness(format!("round {}: a plain payment with inputs {} and outputs {} was refused", round, consumed, paid)); }
+    }
+}
+
+/// C01: whatever type the sender puts on a transaction (other than the exempt Fee / SPV / BlockStake), acceptance implies
+/// that every value-carrying input exists in the ledger and is unspent
+#[tokio::test]
+#[serial_test::serial]
+async fn spent_input_is_refused_for_every_checked_type() {
+    use crate::core::consensus::wallet::Wallet;
+    let (pk, sk) = crate::core::util::crypto::generate_keys();
+    let wallet_lock = std::sync::Arc::new(tokio::sync::RwLock::new(Wallet::new(sk, pk)));
+    let mut blockchain = Blockchain::new(wallet_lock, 1_000, 0, 60);
+    let types = [TransactionType::Normal, TransactionType::GoldenTicket, TransactionType::ATR, TransactionType::Vip, TransactionType::Issuance, TransactionType::Bound];
+    for (n, ty) in types.iter().enumerate() {
+        for state in 0..3 {   // 0: never existed, 1: spent (present, false), 2: unspent (control)
+            let mut tx = Transaction::default();
+            tx.transaction_type = *ty;
+            let mut input = Slip::default(); input.public_key = pk; input.amount = 500; input.block_id = 3; input.tx_ordinal = (n * 3 + state) as u64; input.slip_index = 0;
+            tx.add_from_slip(input);
+            let mut o = Slip::default(); o.public_key = pk; o.amount = 500; tx.add_to_slip(o);
+            tx.sign(&sk);
+            tx.generate(&pk, 0, 8);
+            match state { 1 => { blockchain.utxoset.insert(tx.from[0].utxoset_key, false); } 2 => { blockchain.utxoset.insert(tx.from[0].utxoset_key, true); } _ => {} }
+            let accepted = tx.validate(&blockchain.utxoset, &blockchain, true);
+            if accepted && state != 2 {
+                witness(format!("a {:?}-typed transaction whose 500-nolan input {} was accepted by Transaction::validate(validate_against_utxo = true)", ty, if state == 0 { "does not exist in the ledger" } else { "is already spent" }));
+            }
+        }
+    }
+}
